@@ -120,10 +120,10 @@ def wellformed(ss, loop=False, sw=False):
 
 
 def run(rep, pid, feats, n, findings, rule, gover="1.21", tapes=3, histlen=10, budget=120, size=6,
-        corpus=None, judge_compile=False, extra_progs=None, mutate=None):
+        corpus=None, judge_compile=False, extra_progs=None, mutate=None, round_no=0):
     """Generate, compile, run, compare. findings: ids that may be reported as KNOWN-FINDING for this property.
     judge_compile: compile panics / build errors on untagged programs are violations (C11)."""
-    rng = random.Random(C.seed() * 7368787 + int(pid[1:]))
+    rng = random.Random(C.seed() * 7368787 + int(pid[1:]) + 1000003 * round_no)
     progs = cdiff.gen_programs(rng, n, size=size, feats=feats)
     if mutate:
         progs = [mutate(p, rng) for p in progs]
